@@ -266,12 +266,11 @@ def clm_accounting(F, S):
     else:
         out.append(bad("R-ACCT", inst, pi.loc(pi.body), pi.qn, "each later offset = previous offset + previous dataLength", "step not found"))
     wc = F.fn(AR + "WaveHeader::Create", nparams=2)
-    st = {}
-    for nd in wc.nodes:
-        if is_store(nd) and nd.get("op") == "=":
-            l = wc.term(wc.kids(nd["id"])[0])
-            if l[0] == "mem":
-                st[l[2]] = wc.term(wc.kids(nd["id"])[1])
+    from .through import built_record, field_value
+    built = built_record(F, wc)
+    if built is None:
+        raise AnalysisBroken("WaveHeader::Create: the way the header is built is not recognised (assignments to a local, or a braced initialiser)")
+    st = {"chunkSize": field_value(built, ("riffHeader", "chunkSize")), "length": field_value(built, ("dataChunk", "length"))}
     dl = ("var", wc.params[1]["n"], wc.params[1]["d"])
     fc = F.record(AR + "FormatChunk")["size_bits"] // 8
     ch = F.record(AR + "ChunkHeader")["size_bits"] // 8
